@@ -1,9 +1,9 @@
-SPECIFICATION GSpec
+\* the design, tool folder on the file system of the system locations (one root file system: link(2) succeeds)
+SPECIFICATION Spec
 CONSTANTS
   SameFs = TRUE
   LinkBackup = FALSE
 INVARIANTS
-  Emit
   TypeOK
   RoundTrip
   StopBeforeReplaceObs
@@ -20,4 +20,8 @@ INVARIANTS
   FailOnlyFromPartialBackup
   LnkSound
   BackupIsSeparate
-CHECK_DEADLOCK FALSE
+PROPERTIES
+  StopBeforeReplace
+  Frame
+  BackupTouchedOnlyBy
+CHECK_DEADLOCK TRUE
